@@ -102,8 +102,8 @@ def _fuzz_doc(job):
 
 def run(rep):
     rep.rule = ("XmlWriter.tla model-checked (WellFormedBothModes on every DOM in bounds; the model's recogniser is cross-checked against expat on the real "
-                "writer's output for every model DOM). Then every successful conversion, compact and pretty, of: (a) the hostile-string forms (21 classes, "
-                "24 channels), (b) TLC-generated row structures decorated with every feature (languages, media, settings, namespaces...), (c) the vocabulary "
+                "writer's output for every model DOM). Then every successful conversion, compact and pretty, of: (a) the hostile-string forms (22 classes + 4 function-like texts, "
+                "28 channels), (b) TLC-generated row structures decorated with every feature (languages, media, settings, namespaces...), (c) the vocabulary "
                 "fuzz corpus, (d) a matrix channel x token for the six places where user text becomes an XML name (choices column header, bind::/instance::/"
                 "body:: suffix, settings attribute::, namespaces prefix) x 10 token classes, and nine text channels x 7 characters illegal in XML 1.0 - is "
                 "parsed by expat (namespace-aware) on the returned bytes; TLC (Trace_Xml, PROP=C01) checks parse, one root, one declaration, no unbound "
